@@ -567,8 +567,11 @@ func (s *Super) finish(a *Agg, n int) int {
 		fmt.Printf("  [%s] x%d first case %d: %s\n", sig, len(vs), v.Case, firstLines(v.Detail, 6))
 	}
 	for _, k := range known {
+		// every listed finding is reported on every run, with what this run saw of it
 		if c := knownSeen[k]; c > 0 {
 			fmt.Printf("KNOWN-FINDING: property=%s %s (reproduced in %d cases this run)\n", p.ID, k.What, c)
+		} else {
+			fmt.Printf("KNOWN-FINDING: property=%s %s (listed; not reproduced by the cases of this run)\n", p.ID, k.What)
 		}
 	}
 	for _, l := range out {
